@@ -721,7 +721,7 @@ def _arrays(sin_a,cos_a,sin_2a,cos_2a,x,y,u2_x,u2_y,cov):
     
     # eqn(53)
     g_k = [
-        (u2_x_i + u2_y_i)/2.0 - (u2_x_i - u2_y_i)*cos_2a/2.0 - 2.0*cov_i*sin_2a
+        (u2_x_i + u2_y_i)/2.0 - (u2_x_i - u2_y_i)*cos_2a/2.0 - cov_i*sin_2a
             for u2_x_i, u2_y_i, cov_i in izip(u2_x,u2_y,cov)
     ]
 
